@@ -163,31 +163,20 @@ Qed.
    UpdateHandler came before anything that can end the session, that is the last one installed *)
 Theorem exit_handler m c0 t i s : reachable m c0 t -> nth_error (ss t) i = Some s -> started s = true ->
   amb (hx s) = false -> exited s = true -> exit_h (hx s) = hid (hx s).
-Proof. intros R En St A E. exact (i_amb s (reach_sinv _ _ _ _ _ R En St) A E). Qed.
+Proof. intros R En St A E. exact (i_amb s (reach_sinv _ _ _ _ _ R En St) A (or_intror E)). Qed.
 
-Theorem exit_picks_current_handler s s' d a : SInv s -> sess_step s a = Some (s', d) -> d = true -> exit_h (hx s') = hid (hx s).
+(* the moment quit reads s.rh is a step of its own (the callback may take a while before the count, the queue and the
+   connection change): it records the handler in charge then, and the exit keeps that record *)
+Theorem pick_records_current_handler s s' d : sess_step s Pick = Some (s', d) ->
+  exit_h (hx s') = hid (hx s) /\ picked (hx s') = true /\ d = false /\ exited s' = exited s /\ qclosed s' = qclosed s /\ copen s' = copen s.
 Proof.
-  intros I H D. subst d. destruct (sess_step_inv _ _ _ _ I H) as [_ [_ [E0 E1]]].
-  destruct a; cbn in H.
-  - destruct (Bool.eqb ok (negb (qclosed s))); [|discriminate]. destruct ok; inversion H.
-  - inversion H.
-  - inversion H.
-  - inversion H.
-  - destruct (peer_open s); inversion H.
-  - destruct (peer_open s && negb (peer_reads s)); inversion H.
-  - destruct (peer_open s); [|discriminate]. destruct (recvl s && negb (rcause s) && copen s); inversion H.
-  - destruct (match k with RErr | RTimeout => true | _ => peer_open s end); inversion H.
-  - inversion H.
-  - destruct (negb (sendl s)); [discriminate|]. destruct (q s) as [|x r].
-    + destruct (qclosed s); [|discriminate]. unfold leave_send, quit in H. rewrite E0 in H. inversion H; subst. reflexivity.
-    + destruct (is_nil x); [inversion H|]. destruct (negb (copen s) || wfail s || negb (peer_open s)).
-      * unfold leave_send, quit in H. cbn [exited set_q] in H. rewrite E0 in H. inversion H; subst. reflexivity.
-      * destruct (peer_reads s); inversion H.
-  - destruct (negb (sendl s)); [discriminate|]. destruct (q s) as [|x r]; [discriminate|].
-    destruct (negb (is_nil x) && copen s && negb (wfail s) && negb (peer_open s) && is_tcp (tr s)); inversion H.
-  - destruct (recvl s && (rcause s || negb (copen s))); [|discriminate]. unfold leave_recv, quit in H. rewrite E0 in H.
-    inversion H; subst. reflexivity.
+  intros H. unfold sess_step in H. destruct (negb (picked (hx s)) && negb (exited s) && can_leave s); [|discriminate].
+  inversion H; subst. cbn. repeat split; reflexivity.
 Qed.
+
+Theorem quit_keeps_the_pick s s1 d : quit s = (s1, d) -> d = true ->
+  exit_h (hx s1) = (if picked (hx s) then exit_h (hx s) else hid (hx s)).
+Proof. unfold quit. destruct (exited s); intros H D; inversion H; subst; [discriminate|reflexivity]. Qed.
 
 (* the accept loop: a temporary error of Accept below the retry limit does not end it; it ends only by Server.Close
    or after acceptMaxRetry temporary errors in a row; its errors never touch the count *)
